@@ -31,6 +31,17 @@ def run(ctx):
     # ------------------------------------------------------------------ 1. the grid: model checking
     ctx.tlc("GlobalGrid", "SPECIFICATION Spec\n" + PROPS + (WIDE if T else FULL), note="complete reachable state space of gv")
     ctx.exhaustive = True
+    # unbounded: GridConsistent as an inductive invariant over all positive integers (Apalache), linked to GlobalGrid by a TLC-checked
+    # step refinement; negative control = the pre-fix behaviour (grid rebuilt only when N is passed) must break the induction step
+    ctx.tlc("GlobalGridRefine", "SPECIFICATION Spec\nINVARIANT InvMapped\nPROPERTY StepRefines\nCHECK_DEADLOCK FALSE\n" + FULL,
+            note="every GlobalGrid step is a GlobalGridInd step (refinement mapping)", count=False)
+    ctx.apalache("GlobalGridInd", ["--init=Init", "--inv=IndInv", "--length=0"], note="Init => IndInv")
+    ctx.apalache("GlobalGridInd", ["--init=IndInit", "--inv=IndInv", "--length=1"], note="IndInv /\\ Next => IndInv' (unbounded integers)")
+    ctx.apalache("GlobalGridInd", ["--init=IndInit", "--next=NextStale", "--inv=IndInv", "--length=1"], expect_error=True,
+                 note="negative control: stale grid breaks the induction step")
+    ctx.extra["obligations"] = 2
+    ctx.extra["discharged"] = 2
+    ctx.extra["inductive_invariant"] = "GlobalGridInd!IndInv (Apalache 0.58, unbounded Int): Init => IndInv; IndInv /\\ Next => IndInv'"
 
     def real_state():
         cust = sorted(k for k in vars(gv) if k not in ("sps", "R", "fs", "dt", "wavelength", "f0", "N", "t", "w", "dw"))
